@@ -28,6 +28,7 @@ type Contract struct {
 	Line     int
 	Lets     []*LetClause
 	NoInline bool
+	Entry    []*EntryGhost
 }
 
 type GhostParam struct {
@@ -99,6 +100,14 @@ var clauseKeywords = map[string]bool{
 	"loop": true, "modifies": true, "ghost": true, "safety": true, "pure": true,
 	"pred": true, "ghostvar": true, "at": true, "trusted": true, "may_panic": true,
 	"let": true, "specfun": true, "axiom": true, "noinline": true, "end": true,
+	"entry": true,
+}
+
+// EntryGhost is a ghost assignment executed when the function is entered.
+type EntryGhost struct {
+	Name string // ghost variable
+	Expr *Expr
+	Src  string
 }
 
 func parseContracts(path string) (*Contracts, error) {
@@ -281,6 +290,17 @@ func parseContracts(path string) (*Contracts, error) {
 					return nil, fmt.Errorf("%s:%d: ghost name type", path, r.line)
 				}
 				cur.Ghosts = append(cur.Ghosts, GhostParam{fs[0], fs[1]})
+			case "entry":
+				// entry ghost.x = expr
+				eq := strings.Index(r.text, "=")
+				if eq < 0 || !strings.HasPrefix(strings.TrimSpace(r.text), "ghost.") {
+					return nil, fmt.Errorf("%s:%d: entry ghost.<name> = expr", path, r.line)
+				}
+				e, err := parseExpr(strings.TrimSpace(r.text[eq+1:]))
+				if err != nil {
+					return nil, fmt.Errorf("%s:%d: %v", path, r.line, err)
+				}
+				cur.Entry = append(cur.Entry, &EntryGhost{Name: strings.TrimPrefix(strings.TrimSpace(r.text[:eq]), "ghost."), Expr: e, Src: r.text})
 			case "let":
 				eq := strings.Index(r.text, "=")
 				if eq < 0 {
